@@ -1,11 +1,28 @@
 HOOK_COMMITS = []
 NOT_APPLICABLE_REASON = {}
 ENGINES = [
- {"name": "dlmc", "path": "dlmc/", "serves_properties": ["C01"], "kind_free_text": "bounded-exhaustive Datalog program/database/configuration enumeration against a naive reference evaluator (python), batched runner"},
+ {"name": "dlmc", "path": "dlmc/", "serves_properties": ["C01", "C02"], "kind_free_text": "bounded-exhaustive Datalog program/database/configuration enumeration against a naive reference evaluator (python), batched runner"},
+ {"name": "vsched", "path": "vsched/", "serves_properties": ["C25", "C27", "C29", "C30"], "kind_free_text": "serialising scheduler + preemption-bounded stateless DFS over the real C++ headers; hooks = compiler TSan instrumentation linked against vsched's own __tsan_*/pthread_*/omp_* definitions (no source changes)"},
 ]
 _DL = "the reference evaluator dlmc/ref.py + dlmc/vals.py defines the expected model (independent naive implementation); bounds as stated in the evidence file; cases whose reference evaluation leaves the defined value domain are skipped and counted"
+_VS = "sequentially consistent executions only (no weak-memory reorderings); compare_exchange_weak never fails spuriously; instrumented code compiled at -O1; at most 3 virtual threads; bounds as reported in the evidence file"
 CHECKS = {
  "C01": {"engine": "dlmc", "category": "exploration", "technique": "bounded-exhaustive enumeration of programs x databases vs reference model",
          "text": "Every rule shape of each family up to its size bound is run on every database of a tiny-domain enumeration in the interpreter and compared, relation by relation, with an independent naive stratified evaluator; covers all shapes below the bound rather than the handful a test samples.",
          "note": _DL},
+ "C02": {"engine": "dlmc", "category": "exploration", "technique": "bounded-exhaustive enumeration of programs x databases x {-g, -G, interpreter} vs reference model",
+         "text": "The same enumeration as C01 (smaller alphabets) is generated to C++ in single-file and multi-file mode, compiled against the working tree's headers and compared with the reference model and the interpreter.",
+         "note": _DL + "; generated code is compiled by the check with clang++ -O0 (not -O3 through souffle-compile.py)"},
+ "C25": {"engine": "vsched", "category": "model_checking", "technique": "stateless model checking (preemption-bounded DFS) of the real btree_set/btree_multiset",
+         "text": "All schedules with at most 2-3 preemptions of 2-3 threads inserting into real 3-key-node B-trees built from 8 base shapes, every operation list over a shape-derived colliding key alphabet, each final tree compared with a sorted-set model on iteration, size, insert results, bounds, chunks.",
+         "note": _VS},
+ "C27": {"engine": "vsched", "category": "model_checking", "technique": "stateless model checking (preemption-bounded DFS) of the real Trie<1..4>",
+         "text": "All schedules with at most 2-3 preemptions of 2-3 threads inserting sparse tuples into real Brie tries, compared with a set model on iteration, membership, every prefix range, size and partition.",
+         "note": _VS},
+ "C29": {"engine": "vsched", "category": "model_checking", "technique": "stateless model checking (preemption-bounded DFS) of the real DisjointSet with a per-step invariant",
+         "text": "All schedules with at most 3-5 preemptions of every union/find/sameSet mix (2x<=2 or 3x1 operations, 3-4 nodes): forest + rank + monotone-connectivity invariant after every atomic step, every answer linearizable, final partition = closure.",
+         "note": _VS},
+ "C30": {"engine": "vsched", "category": "model_checking", "technique": "stateless model checking (preemption-bounded DFS) of the real OptimisticReadWriteLock with ghost state",
+         "text": "All schedules with at most 2-4 preemptions of every mix of 2-3 clients running read/validate, write, try-write, upgrade, write-abort, upgrade-abort on the real lock; ghost data detects two writers, torn validated reads, lost version restoration, deadlock and livelock.",
+         "note": _VS},
 }
